@@ -37,11 +37,15 @@ CLAIMS["C01"] = (
     "adjustShardIndex, BETWEEN / NOT BETWEEN routing, the list kernel (makeList, interList, unionList with loop invariants: sortedness, "
     "soundness, completeness), RouteResult.Inter/Union and the AND/OR merge return lists that contain the table of every key satisfying the "
     "condition (forall over all keys, unbounded). The interface contracts they rely on (monotone placement, EqualStart true only for the "
-    "smallest key of a table) are discharged for NumRangeShard (with a monotonicity lemma) and for the calendar shards' EqualStart.",
+    "smallest key of a table) are discharged for NumRangeShard (with a monotonicity lemma) and for the calendar shards' EqualStart. "
+    "IN / NOT IN (getPatternInRouteResult, any list length): for `shardcol IN (v1..vn)` the route lists the table of every value and the "
+    "value list rewritten for a table contains every value placed there (ghost position witness); NOT IN, other columns and global tables "
+    "are never pruned (all tables, each with a value list).",
     "Trusted/assumed: go/ssa, govc, solvers; Rule getters as deterministic functions (immutable rule, C07); axioms subTablesWF, rangeMonotone "
     "for calendar shards (chronological order vs strconv.Atoi), kltAsym, placeBounded; util.GetValueExprResult as uninterpreted valueOf. "
     "NOT under contract: the AST visitor that dispatches to these functions (handleComparisonExpr, handleBinaryOperationExpr*, decorators), "
-    "IN / NOT IN routing (getPatternInRouteResult), alias resolution.",
+    "alias resolution; sort.Ints is trusted to permute; that the broadcast value lists are COMPLETE copies is not stated "
+    "(getBroadcastValueMap: every table gets an entry).",
     "DESIGN.md section 4, C01")
 CLAIMS["C21"] = (
     "isSQLNotAllowedByUser rejects every mutating statement kind (INSERT, REPLACE, UPDATE, DELETE, DDL; one obligation per kind) for a user "
@@ -411,12 +415,14 @@ CLAIMS["C03"] = (
     "at different positions, and every statement's rows are exactly the chain 0..len-1 of input rows of its table (no row twice, no foreign "
     "row). INSERT ... SET: one statement, routed to exactly the table of a literal value; a non-literal value leaves the route untouched "
     "(so the statement is only accepted by generateMultiShardingSQLs when the table has a single sub-table). A non-literal sharding value in "
-    "a batch was silently dropped on the pinned tree: repaired by fix commit a4cf690 (replay kept).",
+    "a batch was silently dropped on the pinned tree: repaired by fix commit a4cf690 (replay kept). generateMultiShardingSQLs renders "
+    "statement m exactly once, while the route cursor stands at m (call-site obligation on Restore; GetCurrentTableIndex -- what the "
+    "table-name decorator writes -- returns indexes[cursor]), files it under the slice and database the rule names for indexes[m], and "
+    "rejects a statement list that does not pair up with the route.",
     "The surjectivity half ('every position of every statement is some input row') is carried by the prevRow/lastRow chain and closed by a "
     "two-line induction that is not mechanised. Listed assumptions: every row has at least shardingColumnIndex+1 values (precheckInsertStmt "
-    "only checks the first row), p.rewriteStmts is empty on entry (NewInsertPlan). NOT under contract: generateMultiShardingSQLs pairs "
-    "statement m with indexes[m] through the RouteResult cursor (the cursor functions HasNext/Next/Reset are under contract in C04, the "
-    "rendering loop is read), handleInsertGlobalSequenceValue, the global-table branch (generateGlobalShardingSQLs delegates to "
+    "only checks the first row), p.rewriteStmts is empty on entry (NewInsertPlan). NOT under contract: the decorators' Restore methods themselves "
+    "(AST rendering), handleInsertGlobalSequenceValue, the global-table branch (generateGlobalShardingSQLs delegates to "
     "generateShardingSQLs, under contract in C04).",
     "DESIGN.md section 4, C03")
 
